@@ -390,7 +390,15 @@ func lwImpl(f []string) string {
 	// a further login with the SAME configuration object (reconnect, retry): still nothing in clear, neither
 	// on the wire nor in an error text
 	reuseCfg = true
-	wire3, errText3, _, _, _ := run()
+	// … with the password corrected in between (a rejected login, the user retypes, the application retries
+	// with the configuration it has): what is sent for the current server must be the password of THIS login
+	newpw := append(append([]byte{}, pw...), 'X')
+	changed := lastCfg != nil && lastCfg.DSN != nil && len(nonce)+len(newpw) <= capacity
+	if changed {
+		lastCfg.DSN.Password = string(newpw)
+		secrets = append(secrets, newpw)
+	}
+	wire3, errText3, outcome3, nonce3, _ := run()
 	for i, s := range secrets {
 		if len(s) >= 6 {
 			if bytes.Contains(wire3, s) {
@@ -398,6 +406,19 @@ func lwImpl(f []string) string {
 			}
 			if strings.Contains(errText3, string(s)) {
 				return fmt.Sprintf("secret %d appears in the error text (login repeated with the same configuration)", i)
+			}
+		}
+	}
+	if changed && outcome3 == "success" {
+		if m3 := bodiesOf(wire3); len(m3) == 2 {
+			if p3, ok := parseClientPackages(m3[1]); ok && len(p3) >= 6 && len(p3[2].fields) == 1 && len(p3[5].fields) >= 2 {
+				want := append(append([]byte{}, nonce3...), newpw...)
+				if got, ok := dec(p3[2].fields[0]); !ok || !bytes.Equal(got, want) {
+					return "the password ciphertext decrypts to nonce || password (login repeated with the same configuration after the password was changed)"
+				}
+				if got, ok := dec(p3[5].fields[1]); !ok || !bytes.Equal(got, want) {
+					return "the ciphertext sent for the current server decrypts to nonce || the password of this login (login repeated with the same configuration after the password was changed)"
+				}
 			}
 		}
 	}
